@@ -28,7 +28,7 @@ import (
 )
 
 type Item struct {
-	Kind string // const | bytesvar | layout | calls | sites | assigns | inttable | strconst
+	Kind string // const | bytesvar | layout | calls | sites | assigns | inttable | exprfn
 	Name string // identifier (const/var/type) or function name ("Recv.Method" for methods)
 	Arg  string // calls: callee selector text, e.g. "binary.Read"
 	As   string // optional Lean name override
@@ -375,6 +375,8 @@ func leanName(s string) string {
 type emitter struct {
 	b      bytes.Buffer
 	failed []string
+	known  map[string]string
+	params map[string][]string
 }
 
 func (em *emitter) fail(it Item, typ, zero, why string) {
@@ -395,6 +397,8 @@ func (em *emitter) name(it Item) string {
 		return "sites_" + leanName(it.Name)
 	case "assigns":
 		return "assigns_" + leanName(it.Name)
+	case "exprfn":
+		return "fn_" + leanName(it.Name)
 	}
 	return leanName(it.Name)
 }
@@ -420,6 +424,11 @@ func strList(xs []string) string {
 
 func (em *emitter) emit(p *pkgInfo, it Item) {
 	switch it.Kind {
+	case "exprfn":
+		if em.known == nil {
+			em.known, em.params = map[string]string{}, map[string][]string{}
+		}
+		em.emitExprFn(p, it, em.known, em.params)
 	case "const":
 		if !p.constOK[it.Name] {
 			em.fail(it, "Int", "0", "constant not found or not foldable")
